@@ -57,8 +57,8 @@ CLAIMED = {
    technique='Lean 4 theorem (cell-level tape: reverse sweep is the adjoint of the tangent sweep, any commutative ring, overwrites) + local adjoint lemmas + adjoint-identity oracle',
    text=('Theorem for every tape, heap, tangent and seed over any commutative ring (A = R[t]/(t^D)): <rev tape h seed, dh> = <seed, tan tape h dh>, with in-place overwrites (also buf[i]=buf[i]); local adjoint '
          'lemmas for add/sub/mul/truediv/scale/copy, every unary function with multiplicative tangent, sum of any arity and dot, each mirroring a pb_* formula; the series-level pullback kernels (25 unary + 4 binary, '
-         'tied to the code through the tracer by exact correspondence) are those ring expressions. Matrix pullbacks dot, inv, solve, trace, transpose, det have their adjoint identities proved over any commutative ring and pb_dot/pb_inv/pb_solve/pb_trace/pb_det of the code are compared with exactly those formulas. The reverse sweep is additive in the seed on input cells (reverse_sweep_superposition), which the run evaluates for every registered operation with a second consumer recorded after it. Array level: every cell-moving operation (broadcasting, indexing/views, reshape, transpose, tile, diag) is a gather along an index map and its adjoint is the scatter-add (sum over broadcast axes), reductions are the transposed pair, item assignment along an injective map splits ybar into the masked old contents and the gathered assigned value (gather_scatter_adjoint, reduction_adjoint, item_assignment_adjoint). The lowering of array programs to tapes is argued, not mechanised, and the factorization pullbacks (lu2/logdet, qr, cholesky, eigh, svd) have no local lemma (partial); '
-         'whole programs incl. all matrix functions and factorizations are checked by the adjoint identity with forward-only tangents (degree doubling).')),
+         'tied to the code through the tracer by exact correspondence) are those ring expressions. Matrix pullbacks dot, inv, solve, trace, transpose, det (the Jacobi formula also without invertibility: tangent tr(adj(X) dX), adjoint ybar adj(X)^T at every matrix, matrix_det_adjoint_every_matrix) have their adjoint identities proved over any commutative ring and pb_dot/pb_inv/pb_solve/pb_trace/pb_det of the code are compared with exactly those formulas. The reverse sweep is additive in the seed on input cells (reverse_sweep_superposition), which the run evaluates for every registered operation with a second consumer recorded after it. Array level: every cell-moving operation (broadcasting, indexing/views, reshape, transpose, tile, diag) is a gather along an index map and its adjoint is the scatter-add (sum over broadcast axes), reductions are the transposed pair, item assignment along an injective map splits ybar into the masked old contents and the gathered assigned value (gather_scatter_adjoint, reduction_adjoint, item_assignment_adjoint). For eigh with distinct eigenvalues the tangent (dLambda = diag(Q^T dA Q), dQ = Q (H o Q^T dA Q)) and the adjoint formula of _eigh_pullback pair correctly on Mathlib matrices (matrix_eigh_tangent, matrix_eigh_adjoint). The lowering of array programs to tapes is argued, not mechanised, and the factorization pullbacks lu2/logdet, qr, cholesky, svd have no local lemma (partial); '
+         'whole programs incl. all matrix functions and factorizations, and every registered operation alone, are checked by the adjoint identity with forward-only tangents (degree doubling).')),
  'C04': dict(
    technique='Lean 4 corollaries of the tape adjoint theorem (gradient / vec_jac as the derivative functional at the heap point) and multivariate calculus (order-1 coefficient of the gradient along a line = Hessian-vector product) + drivers vs forward-mode and exact analytic derivatives',
    text=('Theorems: the sweep seeded with an output cell (resp. a weight vector) returns dx -> F\'(x)dx (resp. w^T J(x)) at the evaluation point held by the heap, for every tape (over any commutative ring, hence also over R[t]/(t^2)); program level, for every F that is C^2 at x: the order-1 Taylor coefficient of the gradient entry dF/dx_j along x + t v is (Hess F(x) v)_j (Hessian row for v = e_p, Hessian-vector product in general, vec_hess by symmetry), order 0 is the gradient entry (second_order_driver_coefficient, hessian_driver_entry, second_order_from_jet). All eight drivers and jacobian(UTPM) '
